@@ -18,6 +18,7 @@ RULE = ("inputs: (a) token soup / arbitrary UTF-8 <= 4 KiB (bracket nesting <= 6
         "budget, CLI exit status outside {0,1}, or exit 1 without a message. distinct = distinct input texts; "
         "non-trivial = got past the tokenizer.")
 RULE += (" " + 'The nesting catalogue also holds the same nests with one of 11 non-expressions at the innermost position or cut off there (every level fails to parse).')
+RULE += (" " + 'Nest kinds also: `a in {b = a in {...}}` with a bareword and with a string on the left, and nested `is`.')
 
 STAGE_TIMEOUT = 10.0
 
